@@ -436,6 +436,67 @@ def reuse_case(ctx, case):
     ctx.check("B.hist.idempotent", not changed, SITE_W, wc + "/reported-earlier", "weight lists changed after delivery for trees %s" % changed[:4])
 
 
+def fault_reuse_case(ctx, case):
+    """one object; for every tree the grid is first requested while the reference function's analytic integral fails for the second slice (the request aborts
+    part-way with the function's exception), then the function is replaced by a good one and the SAME grid is requested again: weights and grid are those of a
+    fresh object given the good function (missed seed C11_9: an 'unchanged grid' shortcut trusted the half-built state of the aborted request)"""
+    from sparseSpACE.Function import Function
+    from bounded._drivers_common import ModelFault
+    a, b = case["a"], case["b"]
+    H = b - a
+    g, sv, cv = case["grouping"], case["slice"], case["container"]
+    wc = wclass(g, sv, cv) + "/retry-after-failed-request"
+
+    class Good(Function):
+        def output_length(self):
+            return 1
+
+        def eval(self, x):
+            return 1.0 + 2.0 * float(x[0])
+
+        def getAnalyticSolutionIntegral(self, start, end):
+            s_, e_ = float(start[0]), float(end[0])
+            return (e_ - s_) + (e_ * e_ - s_ * s_)
+
+    class Bad(Good):
+        def __init__(self, k):
+            super().__init__()
+            self.calls, self.k = 0, k
+
+        def getAnalyticSolutionIntegral(self, start, end):
+            self.calls += 1
+            if self.calls == self.k:
+                raise ModelFault("no analytic integral on [%r, %r]" % (start, end))
+            return Good.getAnalyticSolutionIntegral(self, start, end)
+
+    eg = make_grid(g, sv, cv, False)
+    for name, levels, m in history_trees()[:5]:
+        grid, _ = grid_from_levels(a, b, levels)
+        w = None
+        aborted = False
+        with ctx.guard("B.hist.reuse", SITE_W, wc + "-raises"):
+            with quiet():
+                bad = Bad(0)
+                eg.set_function(bad)            # handed over without a fault; the fault strikes inside the grid request below
+                bad.calls, bad.k = 0, 2
+                try:
+                    eg.set_grid(list(grid), list(levels))
+                except ModelFault:
+                    aborted = True
+                eg.set_function(Good())
+                eg.set_grid(list(grid), list(levels))
+                w = [float(x) for x in eg.get_weights()]
+                g_used = list(eg.get_grid())
+                fo = make_grid(g, sv, cv, False)
+                fo.set_function(Good())
+                fo.set_grid(list(grid), list(levels))
+                fw, fg = [float(x) for x in fo.get_weights()], list(fo.get_grid())
+        if w is None or not aborted:
+            continue
+        ctx.check("B.hist.reuse", g_used == fg and same(w, fw, H), SITE_W, wc,
+                  "tree %s: after an aborted request and a retry with the same grid %s (%d weights for %d points), fresh object %s" % (name, w[:5], len(w), len(grid), fw[:5]))
+
+
 def history_pass(ctx, intervals):
     for (a, b) in intervals:
         for rot in range(12):
@@ -450,6 +511,9 @@ def history_pass(ctx, intervals):
                 case = dict(case, inplace=True)
                 ctx.case(case)
                 reuse_case(ctx, case)
+                case = dict(case, inplace=False, kind="fault_reuse")
+                ctx.case(case)
+                fault_reuse_case(ctx, case)
         case = {"kind": "reuse", "object": "balanced", "a": a, "b": b}
         ctx.case(case)
         reuse_case(ctx, case)
@@ -556,6 +620,8 @@ def replay(ctx, case):
         wrapper_history_case(ctx, case)
     elif kind == "reuse":
         reuse_case(ctx, case)
+    elif kind == "fault_reuse":
+        fault_reuse_case(ctx, case)
     elif kind == "wrapper2d":
         box = [tuple(x) for x in case["box"]]
         wrapper2d_pass(ctx, [tuple(box)], all_trees(3), options=[(case["grouping"], case["slice"], case["container"])])
